@@ -63,6 +63,9 @@ func TapeFor(seed uint64, prop string, phaseIdx int, ph *PhaseCfg, idx int) *Tap
 			vals[k] = uint64(x % r)
 			x /= r
 		}
+		if ph.P["seeded_tail"] == 1 {
+			return ReplayThenSeed(vals, mix(seed, fnv64(prop), uint64(phaseIdx), uint64(idx)))
+		}
 		return ReplayTape(vals)
 	}
 	return NewTape(mix(seed, fnv64(prop), uint64(phaseIdx), uint64(idx)))
